@@ -155,7 +155,7 @@ def seeds(argv):
             # a candidate not (yet) saved under seeded/: a directory holding patch.diff and meta.json
             seed_dir, sid = sid.rstrip("/"), os.path.basename(sid.rstrip("/"))
         meta = json.load(open(os.path.join(seed_dir, "meta.json")))
-        prop = meta["property"]
+        prop = meta.get("check_with") or meta["property"]      # (a few changes are left to a sibling check, see their verif_ran)
         copy = os.path.join(root, sid)
         shutil.rmtree(copy, ignore_errors=True)
         os.makedirs(root, exist_ok=True)
